@@ -558,7 +558,14 @@ func run(in In, n int) (out Out) {
 		}
 		return true
 	}
-	processBlock := func(s Step) string {
+	// after an applied L2 reorg from block b the blocks below b are unchanged on the chain (those without a row were empty): the next
+	// generated block must not get a number below b (it could fall into the range of a certificate that covers such empty blocks)
+	minNext := uint64(0)
+	processBlock := func(s *Step) string {
+		if minNext > 0 && synced+s.Skip+1 < minNext {
+			s.Skip = minNext - synced - 1 // written back into the case, like the deposit counts
+		}
+		minNext = 0
 		// deposit counts continue the tree as it is NOW (after an L2 reorg the generated numbering no longer applies); the
 		// effective counts are written back into the case
 		for i := range s.Evs {
@@ -589,7 +596,7 @@ func run(in In, n int) (out Out) {
 		if s.K != "block" {
 			panic("pre-history must consist of blocks")
 		}
-		if e := processBlock(s); e != "" {
+		if e := processBlock(&s); e != "" {
 			panic("pre-history block refused: " + e)
 		}
 		if synced <= in.StartBlock {
@@ -722,18 +729,22 @@ func run(in In, n int) (out Out) {
 			so.Err = errClass(v.VerifLastErrorC02())
 		}
 	}
-	for _, s := range in.Steps {
+	for si := range in.Steps {
+		s := in.Steps[si]
 		agg.received = nil
 		so := StepObs{}
 		switch s.K {
 		case "block":
-			so.BlkErr = processBlock(s)
+			so.BlkErr = processBlock(&in.Steps[si])
 		case "epoch":
 			tick(s, true, &so)
 		case "status":
 			tick(s, false, &so)
 		case "l2reorg":
 			so.Applied = l2reorg(s.B, agg)
+			if so.Applied {
+				minNext = s.B
+			}
 		case "restart":
 			so.Recov = restart(s.Lost)
 		case "move":
